@@ -127,7 +127,10 @@ def block_table(thorough):
           B("FftStream", {"size": 8}, "small", 1500),
           B("Hilbert", {"ntaps": 5}, "small", 1500, ID),
           B("FirFilter<Float>", {"taps": [1, 2, 3], "deci": 1}, "small", 2500, {"kind": "deci", "arg": 1}),
-          B("Delay<u8>", {"delay": 3}, "bytes", 5000, {"kind": "delay", "arg": 3})]
+          B("Delay<u8>", {"delay": 3}, "bytes", 5000, {"kind": "delay", "arg": 3}),
+          B("FftFilterFloat", {"taps": [1, 2, 3]}, "small", 400, ID),
+          B("FftFilter", {"taps": [1, 2]}, "small", 300, ID),
+          B("FftFilter", {"taps": [1, 0, 2, 1, 1]}, "small", 700, ID)]
     if thorough:
         t += [B("FftFilterFloat", {"taps": [1, 2, 3]}, "small", 3000, ID),
               B("FftFilter", {"taps": [1, 2]}, "small", 3000, ID),
